@@ -139,7 +139,13 @@ def correspondence(ctx):
         "probes; UnpackRule and VerifyArtifacts on EVERY keyword/token variant (each letter of create/modify/delete/allow/disallow/"
         "require/match/with/from/in/materials/products replaced by each fold-equivalent or look-alike, lower and upper case, in "
         "every rule shape and token position; artifacts that the intended rule would reject or consume: a token that is not a "
-        "keyword must give an error, never 'accepted and ignored'); rooted classes: absolute artifact paths with MATCH prefixes "
+        "keyword must give an error, never 'accepted and ignored'); star-tail classes (startail-<form>): patterns whose '*' is followed by a chunk with more pattern bytes than the name bytes "
+        "it matches (*.[ch], *.py[co], *[0-9], *\\.c, *\\[x\\], dir/*.[ch], *[!a]z, *?[ab], *[^.]c, s*\\/[m-n]ain.[c]) against names where "
+        "that chunk must match at the very end after the star skipped >= 1 character, in every rule form (ALLOW, ALLOW with a "
+        "close non-matching name, DISALLOW, CREATE, DELETE, MODIFY, ALLOW followed by REQUIRE of the consumed name, MATCH without "
+        "prefix / IN source prefix / IN destination prefix / both); the random generator draws such patterns (fixed ones and ones "
+        "derived from a recorded name: last character as class or escape behind a star) with probability about 1/4; "
+        "rooted classes: absolute artifact paths with MATCH prefixes "
         "that clean to '/' ('/', '//', '/./', '/x/..'), absolute directories, '.', './', a prefix equal to a whole path, as source "
         "prefix, destination prefix and both. Rooted paths are excluded from the well-formed inputs of C03_model_eq_spec "
         "(clean_path is relative): these cases are compared against the naive oracle (artifact under prefix P = P joined with a "
